@@ -30,7 +30,7 @@ EXPLANATION = (
     "itself - pandas semantics on data (NaN in duplicated, dtype equality, regex expansion on real labels)."
 )
 LEVEL_RULE = "one obligation per pipeline / (attribute, function) / (check, option row) / write site"
-FLOORS = {"R1": 12, "R2": 25, "R3": 20, "R4": 5, "R5": 2, "R6": 10, "R7": 6, "R8": 12}
+FLOORS = {"R1": 12, "R2": 25, "R3": 20, "R4": 5, "R5": 2, "R6": 10, "R7": 6, "R8": 12, "R9": 3}
 
 PD = "pandera/backends/pandas/builtin_checks.py"
 CONT = "pandera/backends/pandas/container.py::DataFrameSchemaBackend"
@@ -469,7 +469,41 @@ def r8_verdict_observers(ctx):
                "all defining observers are read" if not missing else f"never reads the data through {missing}")
 
 
+COLUMN_INFO_SPEC = {
+    # destination field of ColumnInfo -> the condition (over the schema column and the frame's columns) under which a
+    # column name / pattern is recorded, written as the documentation of required / regex defines it
+    "absent_column_names": ["[not(KEY_SCHEMA_columns in DATA.columns) and not(SCHEMA.columns[KEY_SCHEMA_columns].regex) and SCHEMA.columns[KEY_SCHEMA_columns].required]"],
+    "expanded_column_names": ["[KEY_SCHEMA_columns in DATA.columns and not(SCHEMA.columns[KEY_SCHEMA_columns].regex)]", "[SCHEMA.columns[KEY_SCHEMA_columns].regex]"],
+    "regex_match_patterns": ["[SCHEMA.columns[KEY_SCHEMA_columns].regex]"],
+}
+
+
+def r9_column_info(ctx):
+    """Which declared columns count as present / absent / regex-expanded (pandas): a non-regex column is present iff its
+    name is a column of the frame, absent iff it is missing *and* required; a regex column is always expanded through
+    get_regex_columns (never looked up by its pattern text)."""
+    from .c08 import PDC, _effect_sites, _schema_cond, _twin_view
+    from ..cfg import cfg_of as _cfg_of
+    f = ctx.ix.cls(PDC).lookup("collect_column_info")
+    if f is None:
+        raise AnalysisError("pandas collect_column_info missing")
+    ctx.touched(f)
+    view = _twin_view(f)
+    cfg = view.cfg
+    got = {}
+    for kind, key, st in _effect_sites(f, view.acc):
+        if kind == "append":
+            got.setdefault(key, []).append(show_condition(_schema_cond(cfg, cfg.node_of(st).id, view, True)))
+    for key, want in COLUMN_INFO_SPEC.items():
+        have = sorted(got.get(key, []))
+        ok = have == sorted(want)
+        ctx.ob("R9", f, f"collect_column_info records {key} under the documented condition", ok,
+               f"{have}" if ok else f"recorded under {have}, documented meaning {sorted(want)}: presence / absence / regex expansion of declared "
+               "columns is decided differently, so required / regex / strict verdicts change for some frames")
+
+
 def run(ctx):
+    r9_column_info(ctx)
     r7_dtype_equality(ctx)
     r8_verdict_observers(ctx)
     r1_wiring(ctx)
